@@ -289,10 +289,38 @@ class TreeFn(Generic[_FnT, _T]):
     if self.batch_size:
       # Rebatches the output columns as the function returned them, i.e., before
       # several outputs are possibly packed into a single output key.
-      fn_outputs = iter_utils.rebatched_args(
-          (o if isinstance(o, tuple) else (o,) for o in fn_outputs),
-          batch_size=self.batch_size,
-      )
+      fn_outputs = (o if isinstance(o, tuple) else (o,) for o in fn_outputs)
+      # A select forwards its inputs: a selected literal is a constant, not a
+      # column of rows, only the other outputs are rebatched and the literals
+      # are put back afterwards (as for the inputs under fn_batch_size).
+      out_literals = {}
+      if self.fn is _identity_fn:
+        out_literals = {
+            i: key.value
+            for i, key in enumerate(self.input_keys)
+            if isinstance(key, tree.Literal)
+        }
+
+      def without_out_literals(outputs):
+        return tuple(o for i, o in enumerate(outputs) if i not in out_literals)
+
+      def with_out_literals(columns):
+        columns = list(columns)
+        for i, value in out_literals.items():
+          columns.insert(i, value)
+        return tuple(columns)
+
+      if not out_literals:
+        fn_outputs = iter_utils.rebatched_args(
+            fn_outputs, batch_size=self.batch_size
+        )
+      elif len(out_literals) < self._num_inputs:
+        fn_outputs = iter_utils.rebatched_args(
+            map(without_out_literals, fn_outputs),
+            batch_size=self.batch_size,
+            num_columns=self._num_inputs - len(out_literals),
+        )
+        fn_outputs = map(with_out_literals, fn_outputs)
     return map(self._normalize_outputs, fn_outputs)
 
   def iterate(
